@@ -3,7 +3,7 @@ import json
 import os
 import re
 
-from vcheck import Inconclusive, write_ndjson
+from vcheck import Inconclusive, parse_tla_state, write_ndjson
 
 META = {
     "engine": "Connectivity",
@@ -42,6 +42,22 @@ def step_of(state_text, label):
     return s
 
 
+def wstep_of(state_text, label):
+    m = re.match(r'(\w+?)T?(?:\((.*)\))?$', label)
+    name, args = m.group(1), [a.strip().strip('"') for a in (m.group(2) or "").split(",") if a.strip()]
+    st = parse_tla_state(state_text, only={"state", "chan"})
+    exp = {"state": st["state"], "hasch": st["chan"] != 0}
+    if name == "Update":
+        return dict(exp, t="upd", s=args[0])
+    kinds = {"Call": "call", "GetChan": "getchan", "Compare": "compare", "Wake": "wake", "CtxDone": "ctxdone"}
+    if name not in kinds:
+        raise Inconclusive("unknown action label " + label)
+    d = dict(exp, t="w%s" % args[0], k=kinds[name])
+    if name == "Call":
+        d["s"] = args[1]
+    return d
+
+
 def summary(out):
     m = re.search(r"VERIF_SUMMARY (\{.*\})", out)
     if not m:
@@ -69,7 +85,7 @@ def run(ctx):
     binary = ctx.go_build("internal/zzverif/c30")
 
     infeasible = 0
-    for cfg, ns, limit in (("ConnectivityGen.cfg", 1, ctx.pick(600, None)), ("ConnectivityGen2.cfg", 2, ctx.pick(500, None))):
+    for cfg, ns, limit in (("ConnectivityGen.cfg", 1, ctx.pick(300, None)), ("ConnectivityGen2.cfg", 2, ctx.pick(300, None))):
         g = ctx.dump_graph("ConnectivityMC", cfg)
         behs = ctx.edge_cover(g, step_of, limit=limit)
         rows = [{"ns": ns, "steps": [s for s in b if s["a"] != "deliver"]} for b in behs]
@@ -87,12 +103,30 @@ def run(ctx):
         ctx.cov["drift"] += infeasible
 
     tpath = os.path.join(ctx.run, "trace-random.ndjson")
-    n = ctx.pick(300, 8000)
+    n = ctx.pick(200, 2000)
     s = summary(ctx.driver(binary, "TestVerifC30Random", {"VERIF_OUT": tpath, "VERIF_N": n}, timeout=1500))
     ctx.count({"random_scripts": n, "seed": ctx.seed, "steps": s["steps"]}, n=n)
     judge(ctx, ctx.validate("ConnectivityTrace", "ConnectivityTrace.cfg", tpath), tpath, "random scripts seed %d" % ctx.seed)
+    # ---- (b) gated replay of connectivityStateManager with concurrent WaitForStateChange callers
+    binary2 = ctx.go_build(".", name="c30", only=r"zz_verif_c30_")
+    g = ctx.dump_graph("ConnectivityWaitMC", "ConnectivityWaitGen.cfg")
+    behs = ctx.edge_cover(g, wstep_of, limit=ctx.pick(1000, 12000))
+    bpath = os.path.join(ctx.run, "beh-wait.ndjson")
+    tpath = os.path.join(ctx.run, "trace-wait.ndjson")
+    write_ndjson(bpath, behs)
+    s = summary(ctx.driver(binary2, "TestVerifC30Gated", {"VERIF_BEHAVIOURS": bpath, "VERIF_OUT": tpath}, timeout=1200))
+    if s["drift"]:
+        for note in s["notes"]:
+            print("DRIFT property=C30 gated csm replay: %s" % note)
+        ctx.cov["drift"] += s["drift"]
+    for b in behs:
+        ctx.count([(x["t"], x.get("k"), x.get("s")) for x in b], nontrivial=len(b) >= 3)
+    ctx.sample({"scope": "ConnectivityWaitGen.cfg", "schedule": [(x["t"], x.get("k", x.get("s"))) for x in behs[len(behs) // 2]]})
+    judge(ctx, ctx.validate("ConnectivityWaitTrace", "ConnectivityWaitTrace.cfg", tpath), tpath, "gated csm replay")
+
     ctx.cov["rule"] = ("scripts = edge cover of the TLC state graph of Connectivity.tla (1 subchannel x 7 changes, 2 subchannels x 4 "
                        "changes), each executed end to end on a real ClientConn under virtual time with 2 watchers; non-trivial = >= 2 "
                        "environment steps; distinct by script; plus seeded random scripts of 4-24 steps with 2 subchannels and 3 watchers")
     ctx.assumptions += ["virtual time of testing/synctest; synctest.Wait() is quiescence",
+                        "the three verifhook points in WaitForStateChange mark its atomic steps",
                         "the recording LB policy publishes subchannel 1's state as the channel state; idle timeout disabled"]
